@@ -73,7 +73,9 @@ class Check(DiffCheck):
     trusted_base = ['recording IFileSystem/IFileSystemXAttr underlay in harness/C20/harness.cpp', 'python lexical normaliser in checks/C20.py (oracle)']
 
     def build_impl(self):
-        exe, log = cxx_build(self.id, ['harness/C20/harness.cpp'], libphoton=True)
+        # the anchored translation units themselves, from the tree under test (no libphoton: seconds, no shared lock)
+        srcs = ['harness/C20/harness.cpp', 'harness/C20/alog_stub.cpp'] + [os.path.join(REPO, f) for f in ('fs/subfs.cpp', 'fs/path.cpp', 'common/iovector.cpp')]
+        exe, log = cxx_build(self.id, srcs)
         if not exe: raise RuntimeError(log)
         return exe
 
